@@ -613,5 +613,57 @@ def rule_t8(repo):
     return res
 
 
+def rule_t9(repo):
+    """What a numeric evaluator returns is a number; 0 is one of them and it is false in Python.  `res or fallback`,
+    `if not res:` read "the evaluator gave nothing" where it gave zero - and the fallback (here: floating point) decides a
+    comparison whose exact value was known.  In the functions a trusted macro evaluates through, a value that comes out of
+    nat_eval / int_eval / real_eval is never used as a truth value."""
+    res = RuleResult('C05.T9', 'the number returned by an exact evaluator is never tested by its truth value', floor=12)
+    names = {q for (_rel, q) in EVALUATORS}
+    seen = set()
+    for mi in trusted_macros(repo):
+        for f in closure(repo, mi.eval):
+            if id(f.node) in seen:
+                continue
+            seen.add(id(f.node))
+            flow = flow_of(f.node)
+
+            def numeric(e, depth=0):
+                if isinstance(e, ast.Call):
+                    return (call_name(e) or '').split('.')[-1] in names
+                if isinstance(e, ast.Name) and flow.is_local(e.id) and depth < 3:
+                    vals = [r for k, r in flow.defs[e.id] if k == 'value']
+                    return any(numeric(r, depth + 1) for r in vals)
+                return False
+            subjects = [n for n in ast.walk(f.node) if isinstance(n, (ast.Name, ast.Call)) and numeric(n)]
+            if not subjects:
+                continue
+            bad = []
+            for n in ast.walk(f.node):
+                tested = []
+                if isinstance(n, ast.BoolOp):
+                    tested = n.values[:-1] if not _in_test_position(f.node, n) else n.values
+                elif isinstance(n, (ast.If, ast.While, ast.IfExp, ast.Assert)):
+                    tested = [n.test]
+                for t in tested:
+                    while isinstance(t, ast.UnaryOp) and isinstance(t.op, ast.Not):
+                        t = t.operand
+                    if isinstance(t, (ast.Name, ast.Call)) and numeric(t):
+                        bad.append(t)
+            res.add('%s :: %s :: number-not-a-truth-value' % (f.module.rel, f.qualname), not bad,
+                    'no evaluator result is used as a condition' if not bad else
+                    'line %d: `%s` is the result of an exact evaluator and is used as a truth value: the exact result 0 counts as "no result" '
+                    '(2/20 + 4/20 - 6/20 = 0 is then decided by its floating-point value 5.5e-17)' % (bad[0].lineno, src(bad[0], 40)),
+                    '%s:%d' % (f.module.rel, (bad[0] if bad else f.node).lineno), nontrivial=True)
+    return res
+
+
+def _in_test_position(funcnode, boolop):
+    for n in ast.walk(funcnode):
+        if isinstance(n, (ast.If, ast.While, ast.IfExp, ast.Assert)) and n.test is boolop:
+            return True
+    return False
+
+
 def rules(repo):
-    return [rule_t1(repo), rule_t2(repo), rule_t3(repo), rule_t4(repo), rule_t5(repo), rule_t6(repo), rule_t7(repo), rule_t8(repo)]
+    return [rule_t1(repo), rule_t2(repo), rule_t3(repo), rule_t4(repo), rule_t5(repo), rule_t6(repo), rule_t7(repo), rule_t8(repo), rule_t9(repo)]
